@@ -16,6 +16,8 @@ func verifCount(site string) { verifhook.Count(site) }
 
 func verifActivity() { verifhook.Activity() }
 
+func verifBusy(d int64) { verifhook.Busy(d) }
+
 func verifSub(site string, s *Subscription) {
 	if site == "populate" {
 		if s.state != stateDeleted {
